@@ -73,3 +73,43 @@ func H_rediff() {
 	hlib.AssertSame(hlib.Snapshot(root+"/inplace"), neu.Entries(), "optimized patch, in-place apply == new")
 	rt.Reach("end")
 }
+
+// H_moved: one optimizer run over two files where data moves from the larger old file into
+// the smaller one (the differ reuses its buffers and suffix array from file to file).
+// Concrete distinct contents (suffix sorting), one symbolic edit byte.
+// Params: la, lb (old lengths), off, ln (the moved range of old A), pos (0: moved data first in
+// new B, 1: after old B's content), parts.
+func H_moved() {
+	hlib.SetCopyBuf()
+	la, lb := rt.Param("la"), rt.Param("lb")
+	A, B := make([]byte, la), make([]byte, lb)
+	for i := range A {
+		A[i] = byte(i*7 + 3)
+	}
+	for i := range B {
+		B[i] = byte(i*11 + 130)
+	}
+	moved := clone(A[rt.Param("off") : rt.Param("off")+rt.Param("ln")])
+	NA := clone(A)
+	NA[la/2] = rt.Byte("edit")
+	var NB []byte
+	if rt.Param("pos") == 0 {
+		NB = append(moved, B...)
+	} else {
+		NB = append(clone(B), moved...)
+	}
+	old := &hlib.Build{Files: []hlib.File{{Path: "A", Data: A}, {Path: "B", Data: B}}}
+	neu := &hlib.Build{Files: []hlib.File{{Path: "A", Data: NA}, {Path: "B", Data: NB}}}
+	root := rt.TempDir()
+	old.Write(root + "/old")
+	neu.Write(root + "/new")
+	d := hlib.Diff(root+"/old", root+"/new")
+	opt, _, err := hlib.Optimize(d.Patch, root+"/old", root+"/new", hlib.RediffOpts{Partitions: rt.Param("parts"), ForceMapAll: true})
+	rt.Assert(err == nil, "the optimizer returns no error on a valid patch")
+	if err != nil {
+		return
+	}
+	rt.Assert(hlib.ApplyFresh(opt, root+"/old", root+"/out") == nil, "fresh apply of the optimized patch returns no error")
+	hlib.AssertSame(hlib.Snapshot(root+"/out"), neu.Entries(), "optimized patch, fresh apply == new")
+	rt.Reach("end")
+}
